@@ -254,9 +254,10 @@ _PRE = ['1 <= window <= 3', '-1 <= f1 <= 5', '-1 <= s1 <= 60', '-1 <= s2 <= 60']
 OB_DL = dict(
     id='CO.download', impl='protocol_fixed', params=_P, pre=_PRE,
     cases=[('stream', 3, -1), ('stream', 4, -1), ('stream', 3, 4)],
-    cases_thorough=[(k, t, u) for k in ('stream', 'seekable') for t in (1, 2, 3, 4) for u in (-1, 2, 3, 4)],
+    cases_thorough=[('stream', 3, -1), ('stream', 4, -1), ('stream', 3, 4), ('stream', 2, 4), ('seekable', 3, -1),
+                    ('seekable', 4, 2)],
     splits=[['f1 == -1', '%d <= s1 <= %d' % (a, a + 9)] for a in range(-1, 59, 10)],
-    splits_thorough=[[a, '%d <= s1 <= %d' % (b, b + 9)] for a in ('f1 == -1', 'f1 >= 0') for b in range(-1, 59, 10)],
+    splits_thorough=[['%d <= s1 <= %d' % (b, b + 9)] for b in range(-1, 59, 10)],
     timeout=(170, 1500),
     bounds='one ranged download of a 15-byte object in 3 parts x 1 chunk (concrete sizes: the schedule is the subject) '
            'to a non-seekable stream (thorough: also seekable); window 1..3 '
